@@ -593,6 +593,15 @@ func (n *nlWrap) RouteListFilteredIter(family int, filter *netlink.Route, mask u
 		w.dp.FailuresToSimulate |= mocknetlink.FailNextRouteListWrappedEINTR
 	}
 	err := n.Interface.RouteListFilteredIter(family, filter, mask, f)
+	if (kind == "route_list_eintr" || kind == "route_list_wrapped_eintr") && w.inApply && w.faultsOn && w.r.Src.Chance(600, "eintr_mid_dump_change") {
+		// an interrupted dump MEANS the table changed under the reader: make that true, preferably by taking
+		// away a route Felix owns that the interrupted pass may already have reported
+		w.checkSegment("before a kernel change during an interrupted dump")
+		w.r.Fault("kernel_change_during_interrupted_dump")
+		d := w.midDumpChange()
+		w.r.Logf("  during interrupted dump: %s", d)
+		w.seg = w.snapshotNonOwned()
+	}
 	if err == nil && full {
 		// Felix has now read every route: nothing done behind its back is hidden any more.
 		w.staleAll = false
@@ -973,6 +982,28 @@ func (w *world) randomKernelRoute(label string) (netlink.Route, bool) {
 
 // outOfBandRouteOp is another program (or the CNI plugin, or an operator)
 // editing the routing table without telling Felix.
+// midDumpChange removes one Felix-owned route from the kernel (if there is one), else makes any out-of-band edit.
+func (w *world) midDumpChange() string {
+	var owned []string
+	for _, k := range w.routeKeys() {
+		rt := w.dp.RouteKeyToRoute[k]
+		if w.owned(&rt) {
+			owned = append(owned, k)
+		}
+	}
+	if len(owned) == 0 || w.r.Src.Chance(250, "dump_any") {
+		return w.outOfBandRouteOp("dump_route")
+	}
+	k := owned[w.r.Src.Intn(len(owned), "dump_which")]
+	rt := w.dp.RouteKeyToRoute[k]
+	delete(w.dp.RouteKeyToRoute, k)
+	w.staleKeys[k] = true
+	w.conflictKeys[k] = true
+	w.r.Fault("oob_delete_owned_route")
+	w.kernelChanged()
+	return "out-of-band delete " + canon(&rt)
+}
+
 func (w *world) outOfBandRouteOp(label string) string {
 	keys := w.routeKeys()
 	if len(keys) > 0 && w.r.Src.Chance(400, label+"_del") {
@@ -1425,7 +1456,7 @@ func cidrs(v6 bool, n int) (pool, foreign []ip.CIDR, gws []string) {
 
 var faultKinds = []string{
 	"link_list", "link_list_eintr", "link_by_name", "link_by_name_lie_notfound",
-	"route_list", "iface_route_list", "route_list_eintr", "route_list_wrapped_eintr",
+	"route_list", "iface_route_list", "route_list_eintr", "route_list_wrapped_eintr", "kernel_change_during_interrupted_dump",
 	"route_replace", "route_replace_after_own_delete", "route_del", "neigh_set",
 	"new_netlink", "reconnect_after_failed_listing", "set_socket_timeout", "set_strict",
 }
